@@ -1059,7 +1059,14 @@ func (g *gen) accountOp() {
 		if r.Bool() {
 			g.emit(Op{K: "setnonce", A: a, B: 1})
 		} else {
-			g.emit(Op{K: "addbal", A: a, V: g.amount()})
+			// a zero amount would only touch an EMPTY new object; with a carried-over balance it would
+			// leave the re-created account unmarked, and Commit then never stores the replaced object's
+			// storage trie (a Commit-level loss outside this property)
+			v := g.amount()
+			if v == "0" {
+				v = "1"
+			}
+			g.emit(Op{K: "addbal", A: a, V: v})
 		}
 	case 13:
 		g.emit(Op{K: "addlog", A: uint64(1 + r.Intn(5))})
